@@ -211,6 +211,9 @@ def build_round(case: dict):
     return RoundSolidShape(sketch(m.group(1)), [tr.Translation(L * n)])
 
 
+FAN_DISKS = ("OneCoreDisk", "QuarterDisk", "HalfDisk", "FourCoreDisk")
+
+
 def table_name(name: str) -> Optional[str]:
     """the generated table has rows for these only (ring shapes: 4, 5, 8 segments)"""
     if name.startswith("ExtrudedRing") and name[12:] not in ("4", "5", "8"):
@@ -240,7 +243,8 @@ class C19(core.Check):
     partial_note = (
         "the theorems on cartesian stacks are for all sizes, incl. where the corner points of every Grid face and every extruded tier "
         "are (over Q); revolved / twisted tiers are located by the harness only. Faces, grid, core, shell of the round sketch classes are "
-        "computed by the model from the ast-regenerated source text; which points lie on the outer rim is still computed geometrically "
+        "computed by the model from the ast-regenerated source text; for OneCoreDisk / QuarterDisk / HalfDisk / FourCoreDisk the rim is "
+        "proved on the exact positions for every placement, for the other round sketches and the shapes it is still computed geometrically "
         "on *probe* instances (`decide` on those tables; other placements: correspondence + geometric oracle); point numbering after "
         "MappedSketch.merge is not modelled; negative indices / axis outside 0..2 are C20's business"
     )
@@ -592,7 +596,19 @@ class C19(core.Check):
         if case["kind"] == "sketch":
             seg = T._sketch_segment(obj)
             name, cells, grid, core_i, shell_i, rim = T.sketch_row(case["name"], obj, seg)
-            return {"cells": cells, "grid": grid, "core": core_i, "shell": shell_i, "rim": rim}
+            out = {"cells": cells, "grid": grid, "core": core_i, "shell": shell_i, "rim": rim}
+            if case["name"] in FAN_DISKS:
+                # what the constructor was given / computes with, as exact rationals: centre, radius point, unit normal,
+                # cos(pi/4), core_ratio, diagonal_ratio (witnesses for the model of the point generator)
+                pl = case["placement"]
+                c = np.array(pl["t"], dtype=float)
+                n = np.array(rot([0.0, 0.0, 1.0], unit(pl["axis"]), pl["angle"]))
+                rp = c + case["radius"] * np.array(rot([1.0, 0.0, 0.0], unit(pl["axis"]), pl["angle"]))
+                u = n / np.linalg.norm(n)
+                r3 = lambda v: ",".join(core.rat(float(t)) for t in v)  # noqa: E731
+                out["fan"] = " ".join([r3(c), r3(rp), r3(u), core.rat(float(np.cos(np.pi / 4))), core.rat(float(obj.core_ratio)),
+                                       core.rat(float(obj.diagonal_ratio))])
+            return out
         if case["name"] in ("EighthSphere", "Hemisphere"):
             ops = list(obj.operations)
             cells, pts = T._ids([[p.position for p in op.points] for op in ops])
@@ -652,6 +668,9 @@ class C19(core.Check):
         if case["kind"] == "sketch":
             # the index structure computed from the regenerated source text (quad_map, grid expression, merge, core / shell)
             reqs.append(f"c19.sketchsrc {name}")
+            if "fan" in impl:
+                # rim points and shell computed on the exact positions of this placement (T_C19_shell_iff_rim_edge)
+                reqs.append(f"c19.rimshell {name} {impl['fan']}")
         return reqs
 
     def compare(self, case: dict, impl: Any, model: List[str]) -> Optional[str]:
@@ -720,6 +739,16 @@ class C19(core.Check):
                 for k in ("grid", "core", "shell"):
                     if src[k] != show(impl[k]):
                         return f"{case['name']} {k}: implementation {show(impl[k])} / model from source {src[k]}"
+            if len(model) > 2:
+                if model[2] == "bad-op":
+                    return f"{case['name']}: the model cannot compute the positions of this placement"
+                rs = dict(f.split("=", 1) for f in model[2].split(" "))
+                if rs["rim"] != show(sorted(impl["rim"])):
+                    return (f"{case['name']} points on the outer rim: implementation (geometric) {show(sorted(impl['rim']))} / "
+                            f"model of the point generator {rs['rim']}")
+                if rs["shell"] != show(sorted(impl["shell"])):
+                    return (f"{case['name']} shell: implementation {show(sorted(impl['shell']))} / faces with a side on the rim "
+                            f"(model positions) {rs['shell']}")
             return None
         for k, f in (("opface", "opface"), ("core", "core"), ("shell", "shell")):
             if fields[f] != show(impl[k]):
